@@ -45,24 +45,33 @@ type kvAddData struct {
 // AddVertex adds an edge to the graph, if it already exists
 // in the graph, it is replaced
 func (kgdb *KVInterfaceGDB) AddVertex(vertices []*gdbi.Vertex) error {
+	// rejected elements are reported after the write is committed: an error returned
+	// from inside BulkWrite would discard the valid elements of the call as well
+	var bulkErr *multierror.Error
 	err := kgdb.kvg.kv.BulkWrite(func(tx kvi.KVBulkWrite) error {
-		var bulkErr *multierror.Error
 		changed := false
 		for _, vert := range vertices {
-			if err := insertVertex(tx, kgdb.kvg.idx, kgdb.graph, vert.ToVertex()); err != nil {
+			vertex := vert.ToVertex()
+			if err := vertex.Validate(); err != nil {
 				bulkErr = multierror.Append(bulkErr, err)
-			} else {
-				changed = true
+				continue
 			}
+			if err := insertVertex(tx, kgdb.kvg.idx, kgdb.graph, vertex); err != nil {
+				return err
+			}
+			changed = true
 		}
 		// the timestamp tells clients that the graph changed: only touch it when
 		// at least one element was stored
 		if changed {
 			kgdb.kvg.ts.Touch(kgdb.graph)
 		}
-		return bulkErr.ErrorOrNil()
+		return nil
 	})
-	return err
+	if err != nil {
+		return err
+	}
+	return bulkErr.ErrorOrNil()
 }
 
 func insertVertex(tx kvi.KVBulkWrite, idx *kvindex.KVIndex, graph string, vertex *gripql.Vertex) error {
@@ -127,52 +136,76 @@ func insertEdge(tx kvi.KVBulkWrite, idx *kvindex.KVIndex, graph string, edge *gr
 // AddEdge adds an edge to the graph, if the id is not "" and in already exists
 // in the graph, it is replaced
 func (kgdb *KVInterfaceGDB) AddEdge(edges []*gdbi.Edge) error {
+	// as in AddVertex: rejected elements are reported after the write is committed
+	var bulkErr *multierror.Error
 	err := kgdb.kvg.kv.BulkWrite(func(tx kvi.KVBulkWrite) error {
-		var bulkErr *multierror.Error
 		changed := false
 		for _, edge := range edges {
-			if err := insertEdge(tx, kgdb.kvg.idx, kgdb.graph, edge.ToEdge()); err != nil {
+			e := edge.ToEdge()
+			if err := e.Validate(); err != nil {
 				bulkErr = multierror.Append(bulkErr, err)
-			} else {
-				changed = true
+				continue
 			}
+			if err := insertEdge(tx, kgdb.kvg.idx, kgdb.graph, e); err != nil {
+				return err
+			}
+			changed = true
 		}
 		if changed {
 			kgdb.kvg.ts.Touch(kgdb.graph)
 		}
-		return bulkErr.ErrorOrNil()
+		return nil
 	})
-	return err
+	if err != nil {
+		return err
+	}
+	return bulkErr.ErrorOrNil()
 }
 
 func (kgdb *KVInterfaceGDB) BulkAdd(stream <-chan *gdbi.GraphElement) error {
+	// as in AddVertex: rejected elements are reported after the write is committed
+	var bulkErr *multierror.Error
 	err := kgdb.kvg.kv.BulkWrite(func(tx kvi.KVBulkWrite) error {
-		var bulkErr *multierror.Error
 		changed := false
+		// a failed write aborts the bulk write; the stream is still read to its end so
+		// that the sender is not left blocked
+		var writeErr error
 		for elem := range stream {
+			if writeErr != nil {
+				continue
+			}
 			if elem.Vertex != nil {
-				if err := insertVertex(tx, kgdb.kvg.idx, kgdb.graph, elem.Vertex.ToVertex()); err != nil {
+				vertex := elem.Vertex.ToVertex()
+				if err := vertex.Validate(); err != nil {
 					bulkErr = multierror.Append(bulkErr, err)
+				} else if err := insertVertex(tx, kgdb.kvg.idx, kgdb.graph, vertex); err != nil {
+					writeErr = err
 				} else {
 					changed = true
 				}
 				continue
 			}
 			if elem.Edge != nil {
-				if err := insertEdge(tx, kgdb.kvg.idx, kgdb.graph, elem.Edge.ToEdge()); err != nil {
+				edge := elem.Edge.ToEdge()
+				if err := edge.Validate(); err != nil {
 					bulkErr = multierror.Append(bulkErr, err)
+				} else if err := insertEdge(tx, kgdb.kvg.idx, kgdb.graph, edge); err != nil {
+					writeErr = err
 				} else {
 					changed = true
 				}
 				continue
 			}
 		}
-		if changed {
+		if changed && writeErr == nil {
 			kgdb.kvg.ts.Touch(kgdb.graph)
 		}
-		return bulkErr.ErrorOrNil()
+		return writeErr
 	})
-	return err
+	if err != nil {
+		return err
+	}
+	return bulkErr.ErrorOrNil()
 }
 
 // DelEdge deletes edge with id `key`
